@@ -54,6 +54,11 @@ def ops_for(rng, lay, tier):
         ops.append({"op": "setframe", "d": fr, "how": ["assign", "rx", "inplace", "rx"][k % 4]})
         for i in range(1, len(lay) + 1):
             ops.append({"op": "read", "i": i})
+        if k:
+            # the value each variable was given last before the frame changed is written once more
+            for i in range(1, len(lay) + 1):
+                ops.append({"op": "write", "i": i, "v": again(lay[i - 1][0]), "how": "map"})
+                ops.append({"op": "read", "i": i})
         order = list(range(1, len(lay) + 1))
         rng.shuffle(order)
         for i in order:
@@ -67,7 +72,17 @@ def ops_for(rng, lay, tier):
                 ops.append({"op": "read", "i": i, "how": "node" if rng.random() < 0.2 else "map"})
                 j = rng.randrange(1, len(lay) + 1)
                 ops.append({"op": "read", "i": j})
+            ops.append({"op": "write", "i": i, "v": again(t), "how": "map"})
     return ops
+
+
+def again(t):
+    """the value a variable of type t holds when a new frame arrives (and is given again right after it)"""
+    if t == enc.BOOLEAN:
+        return {"bool": True}
+    if t in (enc.REAL32, enc.REAL64):
+        return {"hex": (1.5).hex()}
+    return {"int": 1}
 
 
 def hand_layouts():
@@ -97,8 +112,16 @@ def main():
     else:
         cases = [{"lay": l, "ops": ops_for(rng, [tuple(x) for x in l], args.tier), "implicit_len": rng.random() < 0.5,
                   # every third map held a longer mapping (the first objects, full length) before
-                  "premap": list(range(min(len(l), 8))) + [0] if k % 3 == 2 and sum(n for _, n in l) < 40 else None}
+                  "premap": list(range(min(len(l), 8))) + [0] if k % 3 == 2 and sum(n for _, n in l) < 40 else None,
+                  # ... in which the 8-bit objects were sub-byte fields (every other such map)
+                  "premap_short": k % 2 == 0}
                  for k, l in enumerate(lays)]
+    if not args.replay:
+        # maps that held the same 8-bit objects as sub-byte fields before and hold them in full now
+        for l in ([[0x5, 8], [0x2, 8], [0x6, 16]], [[0x2, 8]], [[0x1, 1], [0x5, 8], [0x2, 8]], [[0x5, 8], [0x3, 16], [0x2, 8], [0x5, 8]]):
+            for implicit in (True, False):
+                cases.append({"lay": l, "ops": ops_for(rng, [tuple(x) for x in l], args.tier), "implicit_len": implicit,
+                              "premap": list(range(len(l))), "premap_short": True})
     results = run_cases("harness.drv_pdobits:run_case", cases, jobs=args.jobs, timeout=120)
     if any(r.get("hang") for r in results):
         raise RuntimeError("driver hang")
@@ -114,7 +137,7 @@ def main():
                "subbyte": n < 8, "crosses_byte": (off % 8) + n > 8 and n <= 8}
         v.report(sig, f"{rej.why} [field {i} type=0x{t:X} len={n} off={off} layout={lay}] event={str(ev)[:300]} frame={rej.state[:200]}",
                  {"case": {"lay": lay, "ops": cases[rej.index]["ops"][:0], "implicit_len": cases[rej.index].get("implicit_len", True),
-                           "premap": cases[rej.index].get("premap")},
+                           "premap": cases[rej.index].get("premap"), "premap_short": cases[rej.index].get("premap_short", False)},
                   "full_ops": len(cases[rej.index]["ops"]), "step": rej.step, "why": rej.why, "spec_state": rej.state, "event": ev})
     cov = {"states": mc.distinct, "transitions": mc.generated, "traces_validated_against_impl": val.traces,
            "samples": [{"lay": cases[0]["lay"], "events": results[0]["ev"][:6]}], "trace_events": val.events,
